@@ -21,7 +21,8 @@ CFG = dict(
                    "implementation and by the model only through 'state = a write prefix' (run_read_fault).",
         rule="exhaustive: 1 branch x {4 histories x late commit x other transaction}; 2 branches over a 6-profile alphabet "
              "(new/existing/landed-by-earlier-transaction/late/other-tx/bystander; same table on two branches); 3 and 4 "
-             "branches random profiles; for each configuration EVERY mutating-call position n of Commit (0..2k+1) as crash "
+             "branches random profiles; table-identity patterns (staged table == own head's table / another branch's head table "
+             "/ another branch's staged table; new branches staging an existing table); for each configuration EVERY mutating-call position n of Commit (0..2k+1) as crash "
              "(mode 0) [+ single failure, mode 1], followed by re-run, double Commit, Discard-after-commit; Discard of a "
              "partially landed transaction; every position of Discard (0..k+1) then re-run; pairs of crashes (n1,n2) then "
              "completion; every store call of any kind incl. reads (mode 2); for every branch as victim, ONE SQL statement inside "
